@@ -326,6 +326,18 @@ feature('comp-first-iterable',
 feature('comp-tuple-target',
         ['[{R1:$Y@c} for {B1:$X@c/comp-target}, {B2:$Y@c/comp-target} in _it((0, 0))]'],
         ['[{R1} for $X, $Y in _it((0, 0)) for $X__s, $Y__s in (({d1}, {d2}),)]'], c02=True, c03=True)
+feature('comp-var-named-like-outer-read-in-function',
+        ['{B1:$X/assign} = 0', 'def g():', '    {R1:$X@g}', '    zz = [{R2:$X@c} for {B2:$X@c/comp-target} in _it()]', '    {R3:$X@g}', 'g()'],
+        ['$X = 0; $X__s = {d1}', 'def g():', '    {R1}', '    zz = [_u({r2}, $X, {d2}) for $X in _it()]', '    {R3}', 'g()'], binds='$X', c02=False, c03=False)
+feature('comp-var-named-like-class-attr',
+        ['class K:', '    {B1:$X@K/assign} = 0', '    zz = [0 for {B2:$X@c/comp-target} in _it()]', '    {R1:$X@K}'],
+        ['class K:', '    $X = 0; $X__s = {d1}', '    zz = [0 for $X in _it()]', '    {R1}'], c02=False, c03=False)
+feature('except-type-reads-body-binding',
+        ['try:', '    {B1:$X/assign} = E_', '    _r()', 'except {R1:$X}:', '    pass'],
+        ['try:', '    $X = E_; $X__s = {d1}', '    _r()', 'except {R1}:', '    pass'], binds='$X', c02=True, c03=False)
+feature('lambda-in-comp-reads-comp-var',
+        ['{B1:$X/assign} = 0', 'zz = [(lambda: {R1:$X@l})() for {B2:$X@c/comp-target} in _it()]', '{R2:$X}'],
+        ['$X = 0; $X__s = {d1}', 'zz = [(lambda: _u({r1}, $X, {d2}))() for $X in _it()]', '{R2}'], binds='$X', c02=False, c03=False)
 feature('comp-nested',
         ['[[{R1:$X@c2} for q in _it()] for {B1:$X@c/comp-target} in _it()]'],
         ['[[{R1} for q in _it()] for $X in _it() for $X__s in ({d1},)]'], c02=True, c03=False)
